@@ -5,7 +5,7 @@
 import Y0.Lemmas.IdUnfold
 
 namespace Y0
-open IdDsl
+open IdDsl IdAux
 
 /-- lines 1-3 did not fire: `X ≠ ∅`, `V = An(Y)_G`, `V ∖ X ⊆ An(Y)` in `G` with the edges into `X` removed -/
 structure Pre (I : IdIn) (anc anc' : List Name) : Prop where
